@@ -215,6 +215,83 @@ theorem exp3_log3_generic (R : M3 ℝ) (hR : IsRot R) (hlo : -1 < (R.trace - 1) 
   rw [hu]
   exact rod_of_skew_part F s co (1 / (2 * s)) hco hs2 (by field_simp)
 
+/-- generic branch: the logarithm is `hat w` for a vector of norm θ = arccos((tr−1)/2) ∈ (0, π),
+    and R is Rodrigues' formula for the axis w/θ -/
+theorem log3_generic_form (R : M3 ℝ) (hR : IsRot R) (hlo : -1 < (R.trace - 1) / 2)
+    (hhi : (R.trace - 1) / 2 < 1) :
+    ∃ w : V3 ℝ, matrixLog3 R = hat w ∧ norm3 w = Real.arccos ((R.trace - 1) / 2) ∧
+      0 < Real.arccos ((R.trace - 1) / 2) ∧ Real.arccos ((R.trace - 1) / 2) < Real.pi ∧
+      R = rod (V3.sdiv w (norm3 w)) (Real.sin (norm3 w)) (Real.cos (norm3 w)) := by
+  obtain ⟨a, b, c, d, e, f, g, h, i⟩ := R
+  have F := facts_of_isRot hR
+  have htr : (M3.trace (⟨a, b, c, d, e, f, g, h, i⟩ : M3 ℝ)) = a + e + i := by m3simp
+  rw [htr] at hlo hhi ⊢
+  set co := (a + e + i - 1) / 2 with hco
+  set θ := Real.arccos co with hθdef
+  have hθpos : 0 < θ := Real.arccos_pos.mpr hhi
+  have hθlt : θ < Real.pi := by
+    rcases lt_or_eq_of_le (Real.arccos_le_pi co) with h1 | h1
+    · exact h1
+    · exact absurd (Real.arccos_eq_pi.mp h1) (not_le.mpr hlo)
+  have hs : Real.sin θ = Real.sqrt (1 - co ^ 2) := Real.sin_arccos co
+  have hc : Real.cos θ = co := Real.cos_arccos hlo.le hhi.le
+  have h1co : 0 < 1 - co ^ 2 := by nlinarith
+  have hspos : 0 < Real.sin θ := by rw [hs]; exact Real.sqrt_pos.mpr h1co
+  have hs2 : Real.sin θ ^ 2 = 1 - co ^ 2 := by rw [hs, Real.sq_sqrt h1co.le]
+  set s := Real.sin θ with hsdef
+  have hsne : s ≠ 0 := ne_of_gt hspos
+  have hθne : θ ≠ 0 := ne_of_gt hθpos
+  refine ⟨⟨θ / 2 / s * (h - f), θ / 2 / s * (c - g), θ / 2 / s * (d - b)⟩, ?_, ?_, hθpos, hθlt, ?_⟩
+  · unfold matrixLog3
+    simp only [htr, ofNat_real_one, ofNat_real]
+    rw [← hco, if_neg (not_le.mpr hhi), if_neg (not_le.mpr hlo)]
+    have hclip : safeClip co (-1) 1 = co := by
+      unfold safeClip smin smax
+      rw [if_neg (not_lt.mpr hlo.le), if_pos hhi]
+    rw [hclip]
+    show M3.smul (Real.arccos co / 2 / Real.sin (Real.arccos co)) _ = _
+    m3ring
+  · apply norm3_eq_of_sq _ θ hθpos.le
+    have hv := vee_skew_sq F
+    have h4 : (3 - (a + e + i)) * (1 + (a + e + i)) = 4 * s ^ 2 := by rw [hs2, hco]; ring
+    rw [h4] at hv
+    simp only
+    field_simp
+    linear_combination hv
+  · have hnorm : norm3 (⟨θ / 2 / s * (h - f), θ / 2 / s * (c - g), θ / 2 / s * (d - b)⟩ : V3 ℝ) = θ := by
+      apply norm3_eq_of_sq _ θ hθpos.le
+      have hv := vee_skew_sq F
+      have h4 : (3 - (a + e + i)) * (1 + (a + e + i)) = 4 * s ^ 2 := by rw [hs2, hco]; ring
+      rw [h4] at hv
+      simp only
+      field_simp
+      linear_combination hv
+    rw [hnorm, hc]
+    have hu : V3.sdiv (⟨θ / 2 / s * (h - f), θ / 2 / s * (c - g), θ / 2 / s * (d - b)⟩ : V3 ℝ) θ =
+        ⟨1 / (2 * s) * (h - f), 1 / (2 * s) * (c - g), 1 / (2 * s) * (d - b)⟩ := by
+      simp only [V3.sdiv, V3.mk.injEq]
+      refine ⟨?_, ?_, ?_⟩ <;> field_simp
+    rw [hu]
+    exact (rod_of_skew_part F s co (1 / (2 * s)) hco hs2 (by field_simp)).symm
+
+/-- Rodrigues' formula is additive in the angle about a fixed unit axis -/
+theorem rod_add (u : V3 ℝ) (s1 c1 s2 c2 : ℝ) (hu : u.x ^ 2 + u.y ^ 2 + u.z ^ 2 - 1 = 0) :
+    rod u s1 c1 * rod u s2 c2 = rod u (s1 * c2 + c1 * s2) (c1 * c2 - s1 * s2) := by
+  obtain ⟨x, y, z⟩ := u
+  unfold rod
+  m3simp
+  simp only at hu
+  refine ⟨?_, ?_, ?_, ?_, ?_, ?_, ?_, ?_, ?_⟩
+  · linear_combination (c1*c2*y^2 + c1*c2*z^2 - c1*y^2 - c1*z^2 - c2*y^2 - c2*z^2 + y^2 + z^2) * hu
+  · linear_combination (-c1*c2*x*y - c1*s2*z + c1*x*y - c2*s1*z + c2*x*y + s1*z + s2*z - x*y) * hu
+  · linear_combination (-c1*c2*x*z + c1*s2*y + c1*x*z + c2*s1*y + c2*x*z - s1*y - s2*y - x*z) * hu
+  · linear_combination (-c1*c2*x*y + c1*s2*z + c1*x*y + c2*s1*z + c2*x*y - s1*z - s2*z - x*y) * hu
+  · linear_combination (c1*c2*x^2 + c1*c2*z^2 - c1*x^2 - c1*z^2 - c2*x^2 - c2*z^2 + x^2 + z^2) * hu
+  · linear_combination (-c1*c2*y*z - c1*s2*x + c1*y*z - c2*s1*x + c2*y*z + s1*x + s2*x - y*z) * hu
+  · linear_combination (-c1*c2*x*z - c1*s2*y + c1*x*z - c2*s1*y + c2*x*z + s1*y + s2*y - x*z) * hu
+  · linear_combination (-c1*c2*y*z + c1*s2*x + c1*y*z + c2*s1*x + c2*y*z - s1*x - s2*x - y*z) * hu
+  · linear_combination (c1*c2*x^2 + c1*c2*y^2 - c1*x^2 - c1*y^2 - c2*x^2 - c2*y^2 + x^2 + y^2) * hu
+
 /-! ### identity branch -/
 
 theorem eq_one_of_trace_ge {a b c d e f g h i : ℝ} (F : Facts a b c d e f g h i) (ht : 3 ≤ a + e + i) :
